@@ -20,10 +20,11 @@ TStep ==
   /\ LET e == Trace[l] IN
        IF e.op = "Reset"
        THEN /\ reqs' = Empty /\ codes' = Empty /\ redeemed' = {} /\ toks' = Empty /\ rts' = Empty
-            /\ idts' = Empty /\ devs' = Empty
+            /\ idts' = Empty /\ devs' = Empty /\ gone' = {}
             /\ cfg' = e.cfg
             /\ UNCHANGED <<cnt, viol>>
        ELSE /\ Apply(e)
+            /\ ApplyGone(e)
             /\ viol' = viol \cup {<<l, r>> : r \in Check(e)}
             /\ UNCHANGED <<cfg, cnt>>
   /\ l' = l + 1
